@@ -614,3 +614,135 @@ def replay_c16(doc):
     for v in bad[:3]:
         print('  ', v['what'], v.get('witness'))
     return not bad
+
+
+def c11_placeholders(table, reg, tier, seed):
+    """C11 stand-in (bounded): the real search_and_replace_placeholders (recursive in-place traversal - outside the
+    executor's subset) on JSON-like trees of depth <= 3 against a reference scanner: every string leaf substituted
+    once, undefined placeholders and non-strings untouched, idempotent, representation keeps the placeholder form,
+    also after copying."""
+    import copy
+    import re
+    from taskchain.utils.data import search_and_replace_placeholders, ReprStr
+    r = random.Random(seed)
+    violations = []
+    tried = 0
+
+    def viol(ob, what, witness):
+        violations.append({'obligation': f'C11.standin.{ob}', 'kind': 'extra', 'check': 'c11_placeholders', 'what': what, 'witness': repr(witness)[:300]})
+
+    def ref_subst(s, env_get):
+        out, i, n = [], 0, 0
+        for m in re.finditer(r'{(.*?)}', s):
+            out.append(s[i:m.start()])
+            name = m.group(1)
+            ok, val = env_get(name)
+            out.append(str(val) if ok else '{' + name + '}')
+            i = m.end()
+            n += 1
+        out.append(s[i:])
+        return ''.join(out), n
+
+    class GV:
+        A = 'alpha'
+        ZERO = 0
+        EMPTY = ''
+        NONE = None
+        NEST = 'runs/{B}'
+        B = 'beta'
+    envs = [({'A': 'alpha', 'B': 'beta', 'ZERO': 0, 'EMPTY': '', 'NONE': None, 'FALSE': False, 'NEST': 'runs/{B}', 'X Y': 'sp'}, 'mapping'),
+            (GV, 'object')]
+    strings = ['plain', '{A}', 'x{A}y', '{A}{B}', '{A} and {B}', '{A}{A}', '{UNDEF}', '{A}{UNDEF}', '{{A}}', '{A', 'A}', '{}', '{ZERO}', 'p{EMPTY}q',
+               '{NONE}', '{FALSE}', '{NEST}/{B}', '{NEST}', '{X Y}', 'a\n{A}', '', '{A}' * 3, '{a}', '{B}/{A}/{B}']
+    leaves = strings + [0, 1, None, True, 2.5]
+
+    def tree(depth):
+        c = r.random()
+        if depth >= 3 or c < 0.35:
+            return r.choice(leaves)
+        if c < 0.7:
+            return [tree(depth + 1) for _ in range(r.randrange(4))]
+        return {r.choice(['k', '{A}', 'uses', 'x']): tree(depth + 1) for _ in range(r.randrange(4))}
+
+    def check_tree(orig, got, env_get, path='$'):
+        if isinstance(orig, str):
+            exp, n = ref_subst(orig, env_get)
+            if not isinstance(got, str) or str(got) != exp:
+                return f'{path}: {orig!r} -> {got!r}, expected {exp!r}'
+            if n and (not isinstance(got, ReprStr) or repr(got) != repr(orig)):
+                return f'{path}: representation of substituted {orig!r} is {got!r:}'.replace('\n', ' ')
+            if not n and type(got) is not str:
+                return f'{path}: a string without placeholders changed its type'
+            return None
+        if isinstance(orig, list):
+            if not isinstance(got, list) or len(got) != len(orig):
+                return f'{path}: list changed'
+            for i, (a, b) in enumerate(zip(orig, got)):
+                e = check_tree(a, b, env_get, f'{path}[{i}]')
+                if e:
+                    return e
+            return None
+        if isinstance(orig, dict):
+            if not isinstance(got, dict) or list(got) != list(orig):
+                return f'{path}: mapping keys changed'
+            for k_ in orig:
+                e = check_tree(orig[k_], got[k_], env_get, f'{path}[{k_!r}]')
+                if e:
+                    return e
+            return None
+        if got is not orig and got != orig or type(got) is not type(orig):
+            return f'{path}: non-string {orig!r} became {got!r}'
+        return None
+    n = 60 if tier == 'quick' else 1500
+    for env, kind in envs:
+        if kind == 'mapping':
+            env_get = lambda name, env=env: (name in env, env.get(name))
+        else:
+            env_get = lambda name, env=env: (hasattr(env, name), getattr(env, name, None))
+        cases = [[s_] for s_ in strings] + [{'v': s_} for s_ in strings] + [tree(0) for _ in range(n)]
+        for orig in cases:
+            if not isinstance(orig, (list, dict)):
+                orig = [orig]
+            tried += 1
+            work = copy.deepcopy(orig)
+            try:
+                res = search_and_replace_placeholders(work, env)
+            except Exception as e:
+                viol('traversal', f'search_and_replace_placeholders raised {type(e).__name__}: {e} ({kind} global_vars)', orig)
+                continue
+            e = check_tree(orig, res, env_get)
+            if e:
+                viol('substitution', f'{e} ({kind} global_vars)', orig)
+                continue
+            before = copy.deepcopy(res)
+            again = search_and_replace_placeholders(res, env)
+            e = check_tree(orig, again, env_get)
+            if e or repr(before) != repr(again):
+                viol('idempotent', f'applying the substitution again changed the data: {e} ({kind} global_vars)', orig)
+                continue
+            cp = copy.deepcopy(again)
+            if repr(cp) != repr(again) or cp != again:
+                viol('copy', 'a deep copy of substituted data has another value or representation', orig)
+        # a bare string
+        for s_ in strings:
+            tried += 1
+            got = search_and_replace_placeholders(s_, env)
+            e = check_tree(s_, got, env_get)
+            if e:
+                viol('substitution', f'{e} ({kind} global_vars, bare string)', s_)
+    seen, uniq = set(), []
+    for v in violations:
+        if v['obligation'] not in seen:
+            seen.add(v['obligation'])
+            uniq.append(v)
+    return {'name': 'c11_placeholders', 'bounded': [{'what': 'real search_and_replace_placeholders on JSON-like trees against a reference scanner (leftmost, shortest, non-overlapping `{name}`)',
+                                                      'bound': f'{tried} trees of depth <= 3 over {len(strings)} placeholder strings, mapping and object global_vars (seed {seed})', 'tried': tried}],
+            'violations': uniq}
+
+
+def replay_c11(doc):
+    out = c11_placeholders(None, None, 'thorough', 0)
+    bad = [v for v in out['violations'] if v['obligation'] == doc['obligation']]
+    for v in bad[:3]:
+        print('  ', v['what'], v.get('witness'))
+    return not bad
